@@ -371,6 +371,108 @@ theorem legacy_no_session_nothing_forwarded (l : LegacyHeaders) (h : l.skipAuthS
   rw [List.all_eq_true] at this
   exact (onlyClaims_iff c').1 (this c' hc')
 
+/-! ## which session value each legacy-configured name carries
+
+  The header flags are how most deployments configure injection. For every combination of the flags
+  and every basic-auth password: -/
+
+/-- the single plain claim a header is configured to carry (`none`: several sources, a prefix, a
+    basic-auth encoding or a static secret) -/
+def plainClaim (c : HeaderCfg) : Option Str :=
+  match c.values with
+  | [.claim cl [] none] => some cl
+  | _ => none
+
+/-- `c` agrees with a table `header name ↦ session claim` -/
+def srcOK (tbl : List (String × String)) (c : HeaderCfg) : Bool :=
+  tbl.all (fun p => c.name != p.1.toList || plainClaim c == some p.2.toList)
+
+theorem srcOK_spec {tbl : List (String × String)} {c : HeaderCfg} (h : srcOK tbl c = true)
+    {n cl : String} (hp : (n, cl) ∈ tbl) (hn : c.name = n.toList) : plainClaim c = some cl.toList := by
+  have := List.all_eq_true.1 h (n, cl) hp
+  simpa [hn] using this
+
+/-- documented meaning of the auth-only response names (`--set-xauthrequest`, `--pass-access-token`) -/
+def respTable : List (String × String) :=
+  [("X-Auth-Request-User", "user"), ("X-Auth-Request-Email", "email"), ("X-Auth-Request-Groups", "groups"),
+   ("X-Auth-Request-Preferred-Username", "preferred_username"), ("X-Auth-Request-Access-Token", "access_token")]
+
+/-- documented meaning of the request names (`--pass-user-headers`, `--pass-basic-auth`,
+    `--pass-access-token`, `--prefer-email-to-user`) -/
+def reqTable (preferEmailToUser : Bool) : List (String × String) :=
+  [("X-Forwarded-User", if preferEmailToUser then "email" else "user"), ("X-Forwarded-Email", "email"),
+   ("X-Forwarded-Groups", "groups"), ("X-Forwarded-Preferred-Username", "preferred_username"),
+   ("X-Forwarded-Access-Token", "access_token")]
+
+theorem legacy_response_all (l : LegacyHeaders) : (legacyConvert l).2.all (srcOK respTable) = true := by
+  obtain ⟨a, b, c3, d, e, f, g, h, pw, i⟩ := l
+  cases f <;> cases b <;> cases e <;> cases g <;> rfl
+
+theorem srcOK_preserve (tbl : List (String × String)) (c : HeaderCfg) (b : Bool) :
+    srcOK tbl { c with preserve := b } = srcOK tbl c := rfl
+theorem srcOK_basic (p q : Bool) (pw : Str) : srcOK (reqTable q) (getBasicAuthHeader p pw) = true := by
+  cases p <;> cases q <;> rfl
+theorem srcOK_passUser (p : Bool) : (getPassUserHeaders p).all (srcOK (reqTable p)) = true := by
+  cases p <;> decide +kernel
+theorem srcOK_prefUser (p : Bool) : srcOK (reqTable p) getPreferredUsernameHeader = true := by
+  cases p <;> decide +kernel
+theorem srcOK_at (p : Bool) : srcOK (reqTable p) getPassAccessTokenHeader = true := by
+  cases p <;> decide +kernel
+theorem srcOK_authz (p : Bool) : srcOK (reqTable p) getAuthorizationHeader = true := by
+  cases p <;> decide +kernel
+
+theorem legacy_request_all (l : LegacyHeaders) :
+    (legacyConvert l).1.all (srcOK (reqTable l.preferEmailToUser)) = true := by
+  simp only [legacyConvert, legacyRequestHeaders, List.all_map, List.all_append, Bool.and_eq_true, Function.comp_def,
+    srcOK_preserve]
+  refine ⟨⟨⟨?_, ?_⟩, ?_⟩, ?_⟩ <;> split <;>
+    simp [srcOK_basic, srcOK_passUser, srcOK_prefUser, srcOK_at, srcOK_authz]
+
+/-- **response side (auth-only endpoint).**  Every `X-Auth-Request-<X>` header carries exactly the
+    session's `<x>`: `prefer-email-to-user` (documented for the request-side flags only) and every other
+    flag have no influence on it. -/
+theorem legacy_response_sources (l : LegacyHeaders) (c : HeaderCfg) (hc : c ∈ (legacyConvert l).2)
+    {n cl : String} (hp : (n, cl) ∈ respTable) (hn : c.name = n.toList) : plainClaim c = some cl.toList :=
+  srcOK_spec (List.all_eq_true.1 (legacy_response_all l) c hc) hp hn
+
+/-- **request side.**  `X-Forwarded-User` carries the session's user — its e-mail address exactly under
+    `prefer-email-to-user`; the other identity headers carry the value their name says. -/
+theorem legacy_request_sources (l : LegacyHeaders) (c : HeaderCfg) (hc : c ∈ (legacyConvert l).1)
+    {n cl : String} (hp : (n, cl) ∈ reqTable l.preferEmailToUser) (hn : c.name = n.toList) :
+    plainClaim c = some cl.toList :=
+  srcOK_spec (List.all_eq_true.1 (legacy_request_all l) c hc) hp hn
+
+/-- in particular: `X-Auth-Request-User` is the session's user under every flag combination -/
+theorem legacy_xauth_user (l : LegacyHeaders) (c : HeaderCfg) (hc : c ∈ (legacyConvert l).2)
+    (hn : c.name = "X-Auth-Request-User".toList) : plainClaim c = some "user".toList :=
+  legacy_response_sources l c hc (n := "X-Auth-Request-User") (cl := "user") (by simp [respTable]) hn
+
+/-- the flags decide presence: the response names the user iff `set-xauthrequest` -/
+theorem legacy_xauth_user_iff (l : LegacyHeaders) :
+    ((legacyConvert l).2.any (fun c => c.name == "X-Auth-Request-User".toList)) = l.setXAuthRequest := by
+  obtain ⟨a, b, c3, d, e, f, g, h, pw, i⟩ := l
+  cases f <;> cases b <;> cases e <;> cases g <;> rfl
+
+/-- the request carries the identity names whenever `pass-basic-auth` or `pass-user-headers` is set -/
+theorem legacy_forwarded_user_present (l : LegacyHeaders) (h : (l.passBasicAuth || l.passUserHeaders) = true) :
+    ∃ c ∈ (legacyConvert l).1, c.name = "X-Forwarded-User".toList := by
+  have hu : ∀ p, ∃ c ∈ getPassUserHeaders p, c.name = "X-Forwarded-User".toList := fun p => by
+    cases p
+    · exact ⟨claimHeader "X-Forwarded-User" "user", by simp [getPassUserHeaders], rfl⟩
+    · exact ⟨claimHeader "X-Forwarded-User" "email", by simp [getPassUserHeaders], rfl⟩
+  obtain ⟨c, hc, hn⟩ := hu l.preferEmailToUser
+  refine ⟨{ c with preserve := !l.skipAuthStripHeaders }, ?_, hn⟩
+  simp only [legacyConvert, legacyRequestHeaders, List.mem_map]
+  refine ⟨c, ?_, rfl⟩
+  simp only [h, if_true, List.mem_append]
+  exact Or.inl (Or.inl (Or.inr (Or.inl hc)))
+
+/-- non-vacuity: the tables are met by real entries -/
+example : claimHeader "X-Auth-Request-User" "user" ∈ (legacyConvert
+    { passBasicAuth := true, passAccessToken := false, passUserHeaders := true, passAuthorization := false,
+      setBasicAuth := false, setXAuthRequest := true, setAuthorization := false, preferEmailToUser := true,
+      basicAuthPassword := [], skipAuthStripHeaders := true }).2 := by decide +kernel
+
 /-! ## non-vacuity: concrete end-to-end instances -/
 
 def exCfg : List HeaderCfg := (legacyConvert
